@@ -706,3 +706,226 @@ Section Frames.
     apply in_map_iff in H as [[k v] [<- _]]. simpl. apply resolve_not_alias. exact W.
   Qed.
 End Frames.
+
+(* ================================================================== to_dataframe(use_aliases=True) *)
+Lemma dedupe_In x l : In x (dedupe l) <-> In x l.
+Proof.
+  induction l as [|y l IH]; simpl; [reflexivity|]. split.
+  - intros [H|H]; [left; exact H|]. apply filter_In in H as [H _]. right. apply IH. exact H.
+  - intros [H|H]; [left; exact H|]. destruct (string_dec y x) as [E|N]; [left; exact E|].
+    right. apply filter_In. split; [apply IH; exact H|]. apply negb_true_iff. apply String.eqb_neq. exact N.
+Qed.
+
+Lemma dedupe_NoDup l : NoDup (dedupe l).
+Proof.
+  induction l as [|y l IH]; simpl; constructor.
+  - intros C. apply filter_In in C as [_ C]. rewrite String.eqb_refl in C. discriminate.
+  - apply NoDup_filter. exact IH.
+Qed.
+
+Lemma nodup_map_inj {A B} (f : A -> B) l x y : NoDup (map f l) -> In x l -> In y l -> f x = f y -> x = y.
+Proof.
+  induction l as [|p r IH]; intros ND Hx Hy E; [contradiction|].
+  simpl in ND. inversion ND as [|? ? Hn ND']; subst.
+  destruct Hx as [->|Hx], Hy as [->|Hy].
+  - reflexivity.
+  - exfalso. apply Hn. rewrite E. apply in_map. exact Hy.
+  - exfalso. apply Hn. rewrite <- E. apply in_map. exact Hx.
+  - apply IH; assumption.
+Qed.
+
+Lemma group_of_In a t k : In k (group_of a t) <-> In (k, t) a.
+Proof.
+  unfold group_of. rewrite in_map_iff. split.
+  - intros [[k0 v0] [E H]]. apply filter_In in H as [H Ev]. simpl in *. apply String.eqb_eq in Ev. subst. exact H.
+  - intros H. exists (k, t). split; [reflexivity|]. apply filter_In. split; [exact H|]. simpl. apply String.eqb_refl.
+Qed.
+
+Lemma last_alias_some c (l : amap_t) : forall acc k,
+  fold_left (fun acc kv => if String.eqb (snd kv) c then Some (fst kv) else acc) l acc = Some k ->
+  acc = Some k \/ In (k, c) l.
+Proof.
+  induction l as [|[k0 v0] l IH]; intros acc k H; simpl in H; [left; exact H|].
+  destruct (IH _ _ H) as [E|E]; [|right; right; exact E].
+  simpl in E. destruct (String.eqb v0 c) eqn:Ev; [|left; exact E].
+  apply String.eqb_eq in Ev. inversion E; subst. right. left. reflexivity.
+Qed.
+
+Section Export.
+  Variable am : aobj.
+  Hypothesis W : WFam am.
+  Hypothesis NDK : NoDup (akeys (amap am)).        (* self.aliases is a dict: no key twice *)
+
+  Notation a := (amap am).
+  Notation pref := (apref am).
+
+  Lemma alias_resolves k t : In (k, t) a -> aget a k = t.
+  Proof. intros H. unfold aget. rewrite (In_assoc_nodup _ _ _ NDK H). reflexivity. Qed.
+
+  (* candidates of a group all resolve to the group's target *)
+  Lemma candidates_resolve t ks x :
+    (forall k, In k ks -> In (k, t) a) -> ~ In t (akeys a) -> In x (ks ++ [t]) -> aget a x = t.
+  Proof.
+    intros Hks Ht H. apply in_app_iff in H as [H|[<-|[]]].
+    - apply alias_resolves. apply Hks. exact H.
+    - apply aget_nonkey. exact Ht.
+  Qed.
+
+  Lemma at_most_one_preferred t ks x y r :
+    (forall k, In k ks -> In (k, t) a) -> ~ In t (akeys a) ->
+    filter (fun z => mem z pref) (dedupe (ks ++ [t])) = x :: y :: r -> False.
+  Proof.
+    intros Hks Ht F.
+    assert (Hx : In x (x :: y :: r)) by (left; reflexivity).
+    assert (Hy : In y (x :: y :: r)) by (right; left; reflexivity).
+    rewrite <- F in Hx, Hy. apply filter_In in Hx as [Hx Px]. apply filter_In in Hy as [Hy Py].
+    apply (proj1 (dedupe_In _ _)) in Hx. apply (proj1 (dedupe_In _ _)) in Hy. apply mem_In in Px. apply mem_In in Py.
+    assert (E : x = y).
+    { apply (nodup_map_inj (aget a) pref); [exact (proj2 W)|exact Px|exact Py|].
+      rewrite (candidates_resolve t ks x Hks Ht Hx), (candidates_resolve t ks y Hks Ht Hy). reflexivity. }
+    subst y.
+    pose proof (NoDup_filter (fun z => mem z pref) (dedupe_NoDup (ks ++ [t]))) as ND.
+    rewrite F in ND. inversion ND as [|? ? Hn _]; subst. apply Hn. left. reflexivity.
+  Qed.
+
+  (* the ValueError branch of to_dataframe is dead once __init__ has accepted PREFERRED_NAMES *)
+  Lemma group_choice_total t : ~ In t (akeys a) -> exists c, group_choice am t = Ret c.
+  Proof.
+    intros Ht. unfold group_choice.
+    assert (Hks : forall k, In k (group_of a t) -> In (k, t) a) by (intros k; apply group_of_In).
+    destruct (group_of a t) as [|k [|k2 r]].
+    - destruct (filter (fun z => mem z pref) (dedupe ([] ++ [t]))) as [|x [|y r']] eqn:F; eauto.
+      exfalso. exact (at_most_one_preferred t [] x y r' Hks Ht F).
+    - destruct (mem t pref); eauto.
+    - destruct (filter (fun z => mem z pref) (dedupe ((k :: k2 :: r) ++ [t]))) as [|x [|y r']] eqn:F; eauto.
+      exfalso. exact (at_most_one_preferred t _ x y r' Hks Ht F).
+  Qed.
+
+  (* whatever is chosen for a target is one of its aliases, or the target itself *)
+  Lemma group_choice_some t x : group_choice am t = Ret (Some x) -> x = t \/ In (x, t) a.
+  Proof.
+    unfold group_choice. intros H.
+    assert (FILT : forall ks, filter (fun z => mem z pref) (dedupe (ks ++ [t])) = [x] -> x = t \/ In x ks).
+    { intros ks F. assert (Hx : In x [x]) by (left; reflexivity). rewrite <- F in Hx.
+      apply filter_In in Hx as [Hx _]. apply (proj1 (dedupe_In _ _)) in Hx. apply in_app_iff in Hx as [Hx|[Hx|[]]]; auto. }
+    destruct (group_of a t) as [|k [|k2 r]] eqn:G.
+    - destruct (filter (fun z => mem z pref) (dedupe ([] ++ [t]))) as [|y [|y2 r']] eqn:F; inversion H; subst.
+      destruct (FILT [] F) as [E|[]]. left. exact E.
+    - destruct (mem t pref); inversion H; subst. right. apply group_of_In. rewrite G. left. reflexivity.
+    - destruct (filter (fun z => mem z pref) (dedupe ((k :: k2 :: r) ++ [t]))) as [|y [|y2 r']] eqn:F; inversion H; subst.
+      destruct (FILT _ F) as [E|E]; [left; exact E|]. right. apply group_of_In. rewrite G. exact E.
+  Qed.
+
+  Lemma replacements_total ts : (forall t, In t ts -> ~ In t (akeys a)) -> exists rep, replacements am ts = Ret rep.
+  Proof.
+    induction ts as [|t ts IH]; intros H; simpl; [eauto|].
+    destruct (group_choice_total t (H t (or_introl eq_refl))) as [c ->].
+    destruct IH as [rep ->]; [intros t' Ht'; apply H; right; exact Ht'|]. eauto.
+  Qed.
+
+  Lemma replacements_In ts : forall rep t x,
+    replacements am ts = Ret rep -> In (t, x) rep -> In t ts /\ group_choice am t = Ret (Some x).
+  Proof.
+    induction ts as [|t0 ts IH]; intros rep t x H Hin; simpl in H.
+    - inversion H; subst. contradiction.
+    - destruct (group_choice am t0) as [c|e] eqn:G; [|discriminate].
+      destruct (replacements am ts) as [l|e] eqn:R; [|discriminate]. inversion H; subst.
+      destruct c as [x0|].
+      + destruct Hin as [E|Hin].
+        * inversion E; subst. split; [left; reflexivity|exact G].
+        * destruct (IH _ _ _ eq_refl Hin) as [I1 I2]. split; [right; exact I1|exact I2].
+      + destruct (IH _ _ _ eq_refl Hin) as [I1 I2]. split; [right; exact I1|exact I2].
+  Qed.
+
+  (* a title is the column's own name or one of the column's aliases *)
+  Definition title_ok (c t : string) : Prop := t = c \/ In (t, c) a.
+
+  Theorem rename_columns_spec cols :
+    exists titles, rename_columns am cols = Ret titles /\ Forall2 title_ok cols titles.
+  Proof.
+    unfold rename_columns. destruct pref as [|p0 pr] eqn:P.
+    - eexists. split; [reflexivity|].
+      induction cols as [|c cols IH]; simpl; constructor; [|exact IH].
+      unfold last_alias. destruct (fold_left _ a None) as [k|] eqn:F; [|left; reflexivity].
+      apply last_alias_some in F as [F|F]; [discriminate|right; exact F].
+    - destruct (replacements_total (dedupe (avals a))) as [rep R].
+      { intros t Ht. apply (proj1 (dedupe_In _ _)) in Ht. apply (unchained_vals _ (proj1 W)). exact Ht. }
+      rewrite R. eexists. split; [reflexivity|].
+      induction cols as [|c cols IH]; simpl; constructor; [|exact IH].
+      unfold aget. destruct (assoc c rep) as [x|] eqn:A; [|left; reflexivity].
+      apply assoc_In in A. destruct (replacements_In _ _ _ _ R A) as [_ G].
+      apply group_choice_some in G. exact G.
+  Qed.
+
+  Lemma title_ok_inj c1 c2 t :
+    ~ In c1 (akeys a) -> ~ In c2 (akeys a) -> title_ok c1 t -> title_ok c2 t -> c1 = c2.
+  Proof.
+    intros K1 K2 [E1|E1] [E2|E2].
+    - congruence.
+    - subst t. exfalso. apply K1. unfold akeys. apply in_map_iff. exists (c1, c2). split; [reflexivity|exact E2].
+    - subst t. exfalso. apply K2. unfold akeys. apply in_map_iff. exists (c2, c1). split; [reflexivity|exact E1].
+    - apply alias_resolves in E1. apply alias_resolves in E2. congruence.
+  Qed.
+
+  Lemma forall2_nodup cols : forall titles,
+    Forall2 title_ok cols titles -> NoDup cols -> (forall c, In c cols -> ~ In c (akeys a)) -> NoDup titles.
+  Proof.
+    induction cols as [|c cols IH]; intros titles F ND NK; inversion F as [|? t ? ts Hct Fr]; subst; constructor.
+    - intros C. inversion ND as [|? ? Hc _]; subst. apply Hc.
+      assert (EX : exists c2, In c2 cols /\ title_ok c2 t).
+      { clear - Fr C. induction Fr as [|c' t' cs' ts' H' F' IH']; [contradiction|].
+        destruct C as [<-|C]; [exists c'; split; [left; reflexivity|exact H']|].
+        destruct (IH' C) as [c2 [I2 T2]]. exists c2. split; [right; exact I2|exact T2]. }
+      destruct EX as [c2 [I2 T2]].
+      rewrite (title_ok_inj c c2 t); [exact I2| | |exact Hct|exact T2].
+      + apply NK. left. reflexivity.
+      + apply NK. right. exact I2.
+    - inversion ND; subst. apply IH; [exact Fr|assumption|]. intros c0 H0. apply NK. right. exact H0.
+  Qed.
+
+  Lemma map_snd_combine {A B} (l1 : list A) : forall (l2 : list B), length l1 = length l2 -> map snd (combine l1 l2) = l2.
+  Proof.
+    induction l1 as [|x l1 IH]; intros [|y l2] H; simpl in *; try discriminate; [reflexivity|].
+    f_equal. apply IH. lia.
+  Qed.
+
+  Lemma map_fst_combine {A B} (l1 : list A) : forall (l2 : list B), length l1 = length l2 -> map fst (combine l1 l2) = l1.
+  Proof.
+    induction l1 as [|x l1 IH]; intros [|y l2] H; simpl in *; try discriminate; [reflexivity|].
+    f_equal. apply IH. lia.
+  Qed.
+
+  Lemma forall2_length {A B} (R : A -> B -> Prop) l1 l2 : Forall2 R l1 l2 -> length l1 = length l2.
+  Proof. induction 1; simpl; congruence. Qed.
+
+  (* EXPORT ONLY RENAMES.  When no alias is named like an exported column (the code does not check this: see
+     alias_named_like_variable_refuted in AliasExamples.v) the export never raises, every column keeps its own data
+     (same variables, same order, none dropped), no two columns get the same title, and a title is the column's
+     name or one of its aliases. *)
+  Theorem export_rename_only s :
+    NoDup (base_columns s) ->
+    (forall c, In c (base_columns s) -> ~ In c (akeys a)) ->
+    exists l, export am s = Ret l /\
+      map snd l = base_columns s /\
+      NoDup (map fst l) /\
+      Forall2 title_ok (base_columns s) (map fst l).
+  Proof.
+    intros ND NK. unfold export.
+    destruct (rename_columns_spec (base_columns s)) as [titles [R F]]. rewrite R.
+    assert (RES : map (resolve am) (base_columns s) = base_columns s).
+    { rewrite <- (map_id (base_columns s)) at 2. apply map_ext_in. intros c Hc. apply aget_nonkey. apply NK. exact Hc. }
+    rewrite RES. pose proof (forall2_length _ _ _ F) as L.
+    eexists. split; [reflexivity|].
+    rewrite map_snd_combine, map_fst_combine by (symmetry; exact L).
+    split; [reflexivity|]. split; [|exact F].
+    eapply forall2_nodup; eassumption.
+  Qed.
+
+  (* in every case (even with an alias named like a variable) the export has one column per exported variable and
+     never raises *)
+  Theorem export_total s : exists l, export am s = Ret l /\ length l = length (base_columns s).
+  Proof.
+    unfold export. destruct (rename_columns_spec (base_columns s)) as [titles [R F]]. rewrite R.
+    eexists. split; [reflexivity|]. rewrite combine_length, map_length, <- (forall2_length _ _ _ F). apply Nat.min_id.
+  Qed.
+End Export.
